@@ -55,8 +55,9 @@ def main():
     ap.add_argument("--tier", default="quick")
     ap.add_argument("--no-tests", action="store_true")
     ap.add_argument("--seedval", default="0")
+    ap.add_argument("--dir", default="seeded", help="seeded (property-breaking changes) or harmless (behaviour-preserving refactorings)")
     a = ap.parse_args()
-    sd = os.path.join(V, "seeded", a.seed)
+    sd = os.path.join(V, a.dir, a.seed)
     prop = a.seed.split("-")[0]
     checks = a.checks.split(",") if a.checks else [prop]
     base = "/tmp/seedrun/" + a.seed
